@@ -39,6 +39,9 @@ func (c *StdCheck) Main() {
 		focus[f] = true
 	}
 	if run.ReplayPath != "" {
+		if ReplayTickerOrHook(run) {
+			run.Finish(nil, nil)
+		}
 		var sc Scenario
 		if err := run.ReplayCase(&sc); err != nil {
 			core.Fatal("cannot load replay: %v", err)
